@@ -37,14 +37,6 @@ func gatingCase(c *h.Case) {
 		failKind  byte
 	}
 	var gps []*gp
-	var cfg strings.Builder
-	fmt.Fprintf(&cfg, `serverAddr = "127.0.0.1"
-serverPort = %d
-auth.token = "%s"
-loginFailExit = false
-transport.tls.enable = false
-transport.poolCount = 0
-`, srv.Cfg.BindPort, token)
 	for i := 0; i < nProx; i++ {
 		id := fmt.Sprintf("g%d-%d", c.Idx, i)
 		hb, err := newHback(id, time.Second)
@@ -58,7 +50,21 @@ transport.poolCount = 0
 			hb.extend("", p.failKind, rng) // failing from the very first probe
 		}
 		gps = append(gps, p)
-		fmt.Fprintf(&cfg, `
+	}
+	cfgText := func(skip int) string {
+		var cfg strings.Builder
+		fmt.Fprintf(&cfg, `serverAddr = "127.0.0.1"
+serverPort = %d
+auth.token = "%s"
+loginFailExit = false
+transport.tls.enable = false
+transport.poolCount = 0
+`, srv.Cfg.BindPort, token)
+		for i, p := range gps {
+			if i == skip {
+				continue
+			}
+			fmt.Fprintf(&cfg, `
 [[proxies]]
 name = %q
 type = "tcp"
@@ -70,7 +76,9 @@ healthCheck.path = %q
 healthCheck.intervalSeconds = 1
 healthCheck.timeoutSeconds = 1
 healthCheck.maxFailed = %d
-`, p.name, hb.port, blk[i], hb.path, p.maxFailed)
+`, p.name, p.hb.port, blk[i], p.hb.path, p.maxFailed)
+		}
+		return cfg.String()
 	}
 	var desc []map[string]any
 	for _, p := range gps {
@@ -78,7 +86,7 @@ healthCheck.maxFailed = %d
 	}
 	c.Data["kind"], c.Data["proxies"] = "gating", desc
 
-	cli, err := h.StartClientText(prop, cfg.String())
+	cli, err := h.StartClientText(prop, cfgText(-1))
 	if err != nil {
 		run.Inconclusive("gating: client did not start: " + err.Error())
 		return
@@ -97,8 +105,28 @@ healthCheck.maxFailed = %d
 	if c.Violations() > 0 {
 		return
 	}
-	// stopped means stopped: once the client is closed no proxy may probe its backend any more
-	cli.Close()
+	// stopped means stopped: an entry removed by a reload is closed at the server and its health monitor
+	// stops probing the backend, while the others go on
+	gone := gps[rng.Intn(len(gps))]
+	skip := 0
+	for i, p := range gps {
+		if p == gone {
+			skip = i
+		}
+	}
+	_, pcs, vcs, err := h.LoadClientConfig(prop, cfgText(skip))
+	if err != nil {
+		run.Inconclusive("gating: configuration does not load")
+		return
+	}
+	if err := cli.Svc.UpdateAllConfigurer(pcs, vcs); err != nil {
+		c.Violation("reload-refused", "UpdateAllConfigurer returned %v", err)
+		return
+	}
+	if !h.Eventually(convergeGrace, func() bool { return !liveNames(gone.name)[gone.name] }) {
+		c.Violation("not-converged-stale-proxy-registered", "%s was removed from the configuration, %v later the server still holds it", gone.name, convergeGrace)
+		return
+	}
 	time.Sleep(300 * time.Millisecond) // a probe in flight may still complete
 	var before []int
 	for _, p := range gps {
@@ -106,8 +134,13 @@ healthCheck.maxFailed = %d
 	}
 	time.Sleep(2500 * time.Millisecond) // 2.5 probe intervals
 	for i, p := range gps {
-		if n := p.hb.nProbes(); n > before[i]+1 {
-			c.Violation("health-probes-continue-after-stop", "%s: %d further health probes reached the backend within 2.5 s after the client was closed", p.name, n-before[i])
+		n := p.hb.nProbes()
+		if p == gone && n > before[i]+1 {
+			c.Violation("health-probes-continue-after-stop", "%s was removed by a reload: %d further health probes reached its backend within 2.5 s", p.name, n-before[i])
+			return
+		}
+		if p != gone && n == before[i] {
+			c.Violation("health-probes-of-unchanged-entry-stopped", "%s was not touched by the reload but its backend saw no health probe for 2.5 s (interval 1 s)", p.name)
 			return
 		}
 	}
